@@ -1283,3 +1283,18 @@ FNS["page_v2_dict"] = dict(model=lambda c: ("uleb_enc", 0), tagged=False, views=
                            oracle=_pg2_oracle, safe=lambda c: True,
                            cls=lambda c: {"width": c["w"], "optional": c["optional"]}, trivial=lambda c: False)
 EXTRA_GENERATORS.append(gen_callers)
+
+
+def coq_obligations(ctx, pid):
+    """coqc of props/<pid>.v (every theorem = one obligation); thorough tier: also coqchk -o on the resulting .vo
+    (independent re-check by the standalone kernel of the theorem file and everything it depends on)."""
+    import time
+    ok, _ = ctx.coq_file(os.path.join(C.COQ, "props", pid + ".v"))
+    if ok and not ctx.quick():
+        t = time.time()
+        rc, out = C.run(["coqchk", "-silent", "-o", "-Q", os.path.join(C.COQ, "theories"), "Pq", pid + ".vo"],
+                        timeout=2400, cwd=os.path.join(C.COQ, "props"))
+        good = rc == 0 and "* Axioms: <none>" in out
+        ctx.obligation("coqchk -o props/%s.vo: the standalone checker accepts the theorem file and its dependencies, Axioms: <none>" % pid,
+                       good, out[-2000:])
+        ctx.checker_cmds.append("coqchk -silent -o -Q coq/theories Pq coq/props/%s.vo  (%.1fs)" % (pid, time.time() - t))
